@@ -329,8 +329,8 @@ func (l *Lexer) readNumber(ch byte) (token.Type, string) {
 	// Fractional part
 	if l.peekChar() == '.' {
 		if dotSeen {
-			// Stop if we see another dot
-			return t, string(l.input[pos : l.pos-1])
+			// Stop if we see another dot (not consumed).
+			return t, string(l.input[pos:l.pos])
 		}
 		t = token.FLOAT
 		l.pos++
@@ -355,7 +355,8 @@ func (l *Lexer) readNumber(ch byte) (token.Type, string) {
 		l.pos++
 	}
 	if !isDigit(l.peekChar()) {
-		// Invalid exponent, stop here
+		// Invalid exponent, stop here: the e and sign are not part of the number, give them back.
+		l.pos = errPos
 		return t, string(l.input[pos:errPos])
 	}
 	t = token.FLOAT
